@@ -100,14 +100,15 @@ def h_seq(ctx, plan):
       reply(of.ofp_stats_reply, xid, lambda m: ctx.And(m.type == 0, m.body.mfr_desc == 'POX'))
     elif kind in ('st_flow', 'st_aggregate'):
       tid = ctx.int('tid%d' % i, 0, 255)
-      b = (of.ofp_flow_stats_request if kind == 'st_flow' else of.ofp_aggregate_stats_request)(table_id=tid)
+      op = ctx.int('outport%d' % i, 0, 0xffff)          # out_port filter: only OFPP_NONE (0xffff) means "no restriction"; the installed flows output to port 1
+      b = (of.ofp_flow_stats_request if kind == 'st_flow' else of.ofp_aggregate_stats_request)(table_id=tid, out_port=op)
       msg = of.ofp_stats_request(body=b)
       nflows = state['flows']
+      sel = ctx.And(ctx.Or(tid == 0, tid == 255), ctx.Or(op == 0xffff, op == 1))
       if kind == 'st_flow':
-        reply(of.ofp_stats_reply, xid, lambda m, tid=tid, nflows=nflows: ctx.And(m.type == 1, ctx.Ite(ctx.Or(tid == 0, tid == 255), len(m.body) == nflows, len(m.body) == 0) if True else True))
+        reply(of.ofp_stats_reply, xid, lambda m, sel=sel, nflows=nflows: ctx.And(m.type == 1, ctx.Ite(sel, len(m.body) == nflows, len(m.body) == 0)))
       else:
-        reply(of.ofp_stats_reply, xid, lambda m, tid=tid, nflows=nflows: ctx.And(m.type == 2, ctx.Implies(ctx.Or(tid == 0, tid == 255), m.body.flow_count == nflows),
-                                                                                  ctx.Implies(ctx.Not(ctx.Or(tid == 0, tid == 255)), m.body.flow_count == 0)))
+        reply(of.ofp_stats_reply, xid, lambda m, sel=sel, nflows=nflows: ctx.And(m.type == 2, ctx.Ite(sel, m.body.flow_count == nflows, m.body.flow_count == 0)))
     elif kind == 'st_table':
       msg = of.ofp_stats_request(body=of.ofp_table_stats_request())
       reply(of.ofp_stats_reply, xid, lambda m, n=state['flows']: ctx.And(m.type == 3, len(m.body) == 1, m.body[0].active_count == n, m.body[0].table_id == 0))
